@@ -9,5 +9,5 @@ git diff > /tmp/twin/$ID.seed.patch
 for f in $(cd $T && find src repe-derive -name '*.rs' 2>/dev/null); do cmp -s $T/$f $W/$f || cp $T/$f $W/$f; done
 git diff > /verif/benign/T$N/benign-$K.diff
 git checkout -- . && git apply /tmp/twin/$ID.seed.patch
-echo "twin of seed $ID-5: the same restructuring with the hidden behavioural difference removed" > /verif/benign/T$N/benign-$K.md
+echo "twin of seed $ID (round ${ROUND:-5}): the same restructuring with the hidden behavioural difference removed" > /verif/benign/T$N/benign-$K.md
 wc -l /verif/benign/T$N/benign-$K.diff
